@@ -66,6 +66,15 @@ Theorem resumes_once :
 Proof. exact resumes_once_lemma. Qed.
 Print Assumptions resumes_once.
 
+(* arbitrarily long sequences: any number of calls (any wrappers, any interleaving inside each) made one after the other on
+   a job record that the pool keeps recycling leave its ledger consistent: never handed out while live, never freed twice,
+   never touched while free, free at the end *)
+Theorem sequence_ledger_ok :
+  forall trs, Forall (fun tr => exists wrp, In wrp wrappers /\ job_exec wrp tr) trs ->
+              ledger_run LFreeSt (concat trs) = Some LFreeSt.
+Proof. exact sequence_ledger_ok_lemma. Qed.
+Print Assumptions sequence_ledger_ok.
+
 (* regression: with the protocol before fix c697d62 (proxy frees every job) a run with two frees of one job exists *)
 Theorem proxy_frees_all_refuted :
   exists wrp tr, In wrp wrappers /\
